@@ -678,7 +678,9 @@ func runC02(c *Ctx) {
 	// shared with C08: Confidence 1.0 means word-for-word identical only if every byte of the input reaches the tokenizer -
 	// also the bytes a reader delivers together with the end of the input (R08.3)
 	if c.R.Filter == nil {
-		borrowRules(c, []string{"R08.3"}, runC08)
+		// ... and StartLine/EndLine are lines of the text as given only if Match hands the bytes it was given to the tokenizer
+		// (R08.1/R08.2: Match and MatchFrom only delegate)
+		borrowRules(c, []string{"R08.3", "R08.1", "R08.2"}, runC08)
 	}
 	sc := p.Func(v2pkg, "(*Classifier).score")
 	if !c.R.Anchor(sc != nil, "v2.(*Classifier).score") {
@@ -928,6 +930,7 @@ func runC05(c *Ctx) {
 		checkOverlapWeights(c, p, mf, cf)
 	}
 	checkCandidateLinesTraversed(c, p)
+	checkIndexKeysAgree(c, p)
 	// shared with C06: whether a line is a notice is decided for every line, whatever its length in bytes (R06.6): a
 	// typographic quote is three bytes where the ASCII one is one
 	checkNoticePatternsUnconditional(c, p)
@@ -1368,6 +1371,8 @@ func runC06(c *Ctx) {
 	checkWordTable(c, p)
 	checkLineStringifier(c, p)
 	checkDictLookupsOnCleanWord(c, p)
+	checkTokenizerCallArgsAgree(c, p)
+	checkRejectedCandidateHasNoEffect(c, p)
 	// shared with C03: an inserted notice is reported on exactly its line only if its pseudo-match is built once and
 	// never extended by a neighbouring notice (R03.13)
 	checkMatchImmutable(c, p)
@@ -2273,6 +2278,7 @@ func runC11(c *Ctx) {
 	checkWordTable(c, p)
 	checkNoticeDecisionOnCleanedLine(c, p)
 	checkNumberWordsAndLocalDictionary(c, p)
+	checkTokenizerCallArgsAgree(c, p)
 	checkCaseFoldedLookups(c, p, ts)
 	checkSpellingLookupOnCleanText(c, p)
 	// R11.6 the normalised text is returned as it was written: line k of the result is line k of the input
@@ -3412,7 +3418,7 @@ func runC17(c *Ctx) {
 	if c.R.Filter == nil {
 		// shared with C13: an exact occurrence is reported with the byte range the regular expression delimits (R13.4);
 		// shared with C14: the candidates are computed without goroutines of their own or state kept between calls (R14.5)
-		borrowRules(c, []string{"R13.4"}, runC13)
+		borrowRules(c, []string{"R13.4", "R13.5"}, runC13)
 		checkV1SharedWrites(c, p)
 		// ... and candidates computed by goroutines are not collected in the order in which the goroutines finish (R14.12)
 		checkCompletionOrder(c, p)
@@ -4302,6 +4308,72 @@ func runC17(c *Ctx) {
 		c.R.Check(n > 0 && okE, "R17.4", "TargetRange ends at Offset + len(Text) of token TargetEnd-1 of the last range", p.Pos(tr.Pos()), whyE, whyE)
 	}
 
+	// R17.11: every candidate that is handed out is a non-empty list of ranges: a list of candidates that a function of the
+	// search set returns is built by append - or, where it is allocated with a length (make([]T, n)) and filled by index, every
+	// round of the filling loop stores (no round is skipped) - otherwise the cells that were not filled are empty candidates,
+	// and TargetRange indexes their first range
+	{
+		nM, bad := 0, ""
+		for _, fn := range pkgFuncs(p, ssPkg) {
+			for _, b := range fn.Blocks {
+				for _, in := range b.Instrs {
+					ms, ok := in.(*ssa.MakeSlice)
+					if !ok {
+						continue
+					}
+					if k, isK := core.ConstInt(ms.Len); isK && k == 0 {
+						continue
+					}
+					sl, isSl := ms.Type().Underlying().(*types.Slice)
+					if !isSl {
+						continue
+					}
+					if _, elemSl := sl.Elem().Underlying().(*types.Slice); !elemSl {
+						continue // only lists of lists (candidates) matter here
+					}
+					nM++
+					// is it returned as it is?
+					returned := false
+					for _, r := range *ms.Referrers() {
+						switch u := r.(type) {
+						case *ssa.Return:
+							returned = true
+						case *ssa.Phi:
+							for _, r2 := range *u.Referrers() {
+								if _, isRet := r2.(*ssa.Return); isRet {
+									returned = true
+								}
+							}
+						}
+					}
+					if !returned {
+						continue
+					}
+					cd := core.NewPostDom(fn).TransitiveControlDeps()
+					for _, r := range *ms.Referrers() {
+						ia, isIA := r.(*ssa.IndexAddr)
+						if !isIA {
+							continue
+						}
+						// the store's block: controlled by anything but loop headers?
+						for d := range cd[ia.Block()] {
+							isHeader := false
+							for _, pr := range d.Preds {
+								if d.Dominates(pr) {
+									isHeader = true
+								}
+							}
+							if !isHeader && bad == "" {
+								bad = core.ShortFn(fn) + ": the list allocated at " + p.Pos(ms.Pos()) + " is filled at " + p.Pos(ia.Pos()) + " only when the test at " + p.Pos(d.Instrs[len(d.Instrs)-1].Pos()) + " allows it, and is returned in its full length"
+							}
+						}
+					}
+				}
+			}
+		}
+		c.R.Check(bad == "", "R17.11", "a list of candidates that is returned has no unfilled cells", ssPkg, fmt.Sprintf("%d lists of lists allocated with a length", nM),
+			bad+": the cells of the skipped rounds stay empty - a candidate without ranges, whose first range TargetRange reads (index out of range)")
+	}
 	// R17.2b the candidates leave FindPotentialMatches in the order the pipeline produced them: no other sort
 	if fpm := p.Func(ssPkg, "FindPotentialMatches"); c.R.Anchor(fpm != nil, "searchset.FindPotentialMatches") {
 		oa := eng.NewOrderAnalysis(p, []*ssa.Function{fpm})
@@ -5523,5 +5595,380 @@ func checkCandidateLinesTraversed(c *Ctx, p *core.Prog) {
 		bad+": the lines behind that point are not looked at, so an earlier candidate that shares only those lines is not found - blank lines inserted in front of a notice inside a license text move it out of reach, and the notice is reported although the license covers it")
 	if nL == 0 {
 		c.R.Info("R05.11", "match: walks over the lines of a candidate", p.Pos(mf.Pos()), "no loop bounded by a candidate's EndLine found")
+	}
+}
+
+// checkIndexKeysAgree: R05.12. An index that match fills in one loop and consults in another is consulted under the keys it is
+// filled under: the loop that looks candidates up in a map and the loop that registers a candidate in the same map run over the
+// same keys - same start, same bound, same step, same key expression. Keys that are registered but never looked up (or the
+// other way round) hide earlier candidates from the overlap filter for some line numbers only, so inserting blank lines changes
+// which matches survive.
+func checkIndexKeysAgree(c *Ctx, p *core.Prog) {
+	mf := p.Func(v2pkg, "(*Classifier).match")
+	if mf == nil {
+		return
+	}
+	var show func(v ssa.Value, ind *ssa.Phi, d int) string
+	show = func(v ssa.Value, ind *ssa.Phi, d int) string {
+		v = core.Unspill(v)
+		if d > 6 {
+			return "?"
+		}
+		if ph, ok := v.(*ssa.Phi); ok && ph == ind {
+			return "i"
+		}
+		switch x := v.(type) {
+		case *ssa.Const:
+			if x.Value != nil {
+				return x.Value.ExactString()
+			}
+			return "nil"
+		case *ssa.BinOp:
+			return "(" + show(x.X, ind, d+1) + x.Op.String() + show(x.Y, ind, d+1) + ")"
+		case *ssa.UnOp:
+			if fa, ok := x.X.(*ssa.FieldAddr); ok {
+				return "." + core.FieldName(fa)
+			}
+		case *ssa.Field:
+			if st := core.StructOf(x.X.Type()); st != nil {
+				return "." + st.Field(x.Field).Name()
+			}
+		case *ssa.Convert:
+			return show(x.X, ind, d+1)
+		}
+		return "?" + v.Name()
+	}
+	type use struct {
+		desc string
+		pos  string
+	}
+	nM, bad := 0, ""
+	for _, fn := range pkgClosure(mf, v2pkg) {
+		if isTraceFn(fn) {
+			continue
+		}
+		reads, writes := map[ssa.Value][]use{}, map[ssa.Value][]use{}
+		for _, b := range fn.Blocks {
+			for _, in := range b.Instrs {
+				var m, key ssa.Value
+				isWrite := false
+				switch x := in.(type) {
+				case *ssa.Lookup:
+					if _, isMap := x.X.Type().Underlying().(*types.Map); isMap {
+						m, key = core.Unspill(x.X), x.Index
+					}
+				case *ssa.MapUpdate:
+					m, key, isWrite = core.Unspill(x.Map), x.Key, true
+				}
+				if m == nil {
+					continue
+				}
+				// the induction variable the key depends on: a phi at the header of an enclosing loop
+				var ind *ssa.Phi
+				var find func(v ssa.Value, d int)
+				find = func(v ssa.Value, d int) {
+					v = core.Unspill(v)
+					if d > 5 || ind != nil {
+						return
+					}
+					switch y := v.(type) {
+					case *ssa.Phi:
+						for _, pr := range y.Block().Preds {
+							if y.Block().Dominates(pr) {
+								ind = y
+								return
+							}
+						}
+					case *ssa.BinOp:
+						find(y.X, d+1)
+						find(y.Y, d+1)
+					case *ssa.Convert:
+						find(y.X, d+1)
+					}
+				}
+				find(key, 0)
+				if ind == nil {
+					continue
+				}
+				h := ind.Block()
+				// start value, step and exit test of the loop
+				start, step := "?", "?"
+				for i, e := range ind.Edges {
+					if h.Dominates(h.Preds[i]) {
+						step = show(e, ind, 0)
+					} else {
+						start = show(e, ind, 0)
+					}
+				}
+				bound := "?"
+				if ifi, ok := h.Instrs[len(h.Instrs)-1].(*ssa.If); ok {
+					bound = show(ifi.Cond, ind, 0)
+				}
+				u := use{desc: "for i = " + start + "; " + bound + "; i = " + step + " { key " + show(key, ind, 0) + " }", pos: p.Pos(in.Pos())}
+				if isWrite {
+					writes[m] = append(writes[m], u)
+				} else {
+					reads[m] = append(reads[m], u)
+				}
+			}
+		}
+		for m, ws := range writes {
+			rs := reads[m]
+			if len(rs) == 0 {
+				continue
+			}
+			nM++
+			for _, w := range ws {
+				for _, r := range rs {
+					if w.desc != r.desc && bad == "" {
+						bad = core.ShortFn(fn) + ": registered with `" + w.desc + "` (" + w.pos + ") but looked up with `" + r.desc + "` (" + r.pos + ")"
+					}
+				}
+			}
+		}
+	}
+	if nM == 0 {
+		c.R.Info("R05.12", "match: indexes filled and consulted in loops", p.Pos(mf.Pos()), "no map that is both filled and consulted under loop-dependent keys")
+		return
+	}
+	c.R.Check(bad == "", "R05.12", "match: an index is consulted under the keys it is filled under", v2pkg, fmt.Sprintf("%d maps filled in one loop and consulted in another, same start, bound, step and key", nM),
+		bad+": for some line numbers a candidate is registered under a key that is never looked up - an earlier, better candidate is not found, so the same text with a few blank lines in front keeps a match that is otherwise struck out")
+}
+
+// checkTokenizerCallArgsAgree: R06.19, R11.16.
+func checkTokenizerCallArgsAgree(c *Ctx, p *core.Prog) {
+	ts := p.Func(v2pkg, "tokenizeStream")
+	if ts == nil {
+		return
+	}
+	// R06.19: the words of a line are handed over with the position of the first of them in its line - the loop-carried offset -
+	// at every place where they are handed over: the call sites of one helper inside the tokenizer agree on whether an integer
+	// argument is a variable or a constant. A constant at one site (0 at the final flush) makes the last line of an input lose
+	// the offset a hyphenated word left behind, so its second word is dropped as a list marker.
+	{
+		type site struct {
+			call ssa.CallInstruction
+		}
+		byCallee := map[*ssa.Function][]ssa.CallInstruction{}
+		for _, call := range core.CallsIn(ts) {
+			if g := call.Common().StaticCallee(); g != nil && core.FuncPkgPath(g) == v2pkg && !isTraceFn(g) {
+				byCallee[g] = append(byCallee[g], call)
+			}
+		}
+		nP, bad := 0, ""
+		for g, calls := range byCallee {
+			if len(calls) < 2 {
+				continue
+			}
+			for k := range g.Params {
+				if bt, ok := g.Params[k].Type().Underlying().(*types.Basic); !ok || bt.Info()&types.IsInteger == 0 {
+					continue
+				}
+				nP++
+				nConst, nVar := 0, 0
+				var constAt ssa.CallInstruction
+				for _, call := range calls {
+					if k >= len(call.Common().Args) {
+						continue
+					}
+					if _, isK := core.Unspill(call.Common().Args[k]).(*ssa.Const); isK {
+						nConst++
+						constAt = call
+					} else {
+						nVar++
+					}
+				}
+				if nConst > 0 && nVar > 0 && bad == "" {
+					bad = "parameter " + g.Params[k].Name() + " of " + core.ShortFn(g) + " is a constant at " + p.Pos(constAt.Pos()) + " and a variable at the other " + fmt.Sprint(nVar) + " call site(s)"
+				}
+			}
+		}
+		c.R.Check(bad == "", "R06.19", "tokenizeStream: the call sites of a helper agree on which integer arguments are variables", p.Pos(ts.Pos()), fmt.Sprintf("%d integer parameters of helpers called from two or more sites", nP),
+			bad+": at that site the loop-carried value (the line number, the position offset of the line) is replaced by a fixed one - the words handed over there are treated as if they started their line, or stood on another line")
+	}
+	// R11.16: whether a word's spelling is normalised is decided by the tokenizer's normalize flag: the flag that reaches
+	// cleanupToken is, followed back through the call chain, the first bool parameter of tokenizeStream - not the flag next to
+	// it (updateDict), which is true exactly where normalize is false in Normalize and the other way round in Match.
+	if ct := p.Func(v2pkg, "cleanupToken"); ct != nil {
+		var firstBool *ssa.Parameter
+		for _, prm := range ts.Params {
+			if bt, ok := prm.Type().Underlying().(*types.Basic); ok && bt.Kind() == types.Bool {
+				firstBool = prm
+				break
+			}
+		}
+		if firstBool != nil {
+			var origin func(v ssa.Value, fn *ssa.Function, d int) (string, bool)
+			origin = func(v ssa.Value, fn *ssa.Function, d int) (string, bool) {
+				v = core.Unspill(v)
+				if d > 5 {
+					return "", false
+				}
+				prm, ok := v.(*ssa.Parameter)
+				if !ok {
+					return "", false
+				}
+				if fn == ts {
+					return prm.Name(), prm == firstBool
+				}
+				idx := -1
+				for i, q := range fn.Params {
+					if q == prm {
+						idx = i
+					}
+				}
+				res, okAll, n := "", true, 0
+				for _, g := range v2Funcs(p) {
+					for _, call := range core.CallsIn(g) {
+						if call.Common().StaticCallee() != fn || idx >= len(call.Common().Args) {
+							continue
+						}
+						n++
+						name, ok := origin(call.Common().Args[idx], g, d+1)
+						if name == "" {
+							return "", false
+						}
+						res = name
+						okAll = okAll && ok
+					}
+				}
+				if n == 0 {
+					return "", false
+				}
+				return res, okAll
+			}
+			nF := 0
+			for _, fn := range v2Funcs(p) {
+				for _, call := range core.CallsIn(fn) {
+					if call.Common().StaticCallee() != ct {
+						continue
+					}
+					for k, a := range call.Common().Args {
+						if bt, ok := ct.Params[k].Type().Underlying().(*types.Basic); !ok || bt.Kind() != types.Bool {
+							continue
+						}
+						name, ok := origin(a, fn, 0)
+						if name == "" {
+							c.R.Info("R11.16", core.ShortFn(fn)+": the flag handed to cleanupToken", p.Pos(call.Pos()), "not decided: the flag does not trace back to a parameter of tokenizeStream")
+							continue
+						}
+						nF++
+						c.R.Check(ok, "R11.16", core.ShortFn(fn)+": the flag handed to cleanupToken is the tokenizer's normalize flag", p.Pos(call.Pos()), "traces back to parameter "+firstBool.Name()+" of tokenizeStream",
+							"the flag traces back to parameter "+name+" of tokenizeStream, not to "+firstBool.Name()+": Match stops mapping interchangeable spellings and Normalize starts to - the normalised text no longer holds the words of the original and matches differently")
+					}
+				}
+			}
+			_ = nF
+		}
+	}
+}
+
+// checkRejectedCandidateHasNoEffect: R06.20. In the overlap filter a candidate strikes out earlier candidates only if it is kept
+// itself: a store into the list of retain flags at another index than the current candidate's stands behind the test of the
+// current candidate's own verdict. Otherwise a candidate that the filter rejects (it lies inside a better one) still removes
+// what it overlaps - a notice pseudo-match on a line it spans disappears although the license that is reported does not
+// cover that line.
+func checkRejectedCandidateHasNoEffect(c *Ctx, p *core.Prog) {
+	mf := p.Func(v2pkg, "(*Classifier).match")
+	if mf == nil {
+		return
+	}
+	for _, fn := range pkgClosure(mf, v2pkg) {
+		if isTraceFn(fn) {
+			continue
+		}
+		// the retain list: a []bool made by this function
+		type st struct {
+			store *ssa.Store
+			ia    *ssa.IndexAddr
+		}
+		bySlice := map[ssa.Value][]st{}
+		for _, b := range fn.Blocks {
+			for _, in := range b.Instrs {
+				s2, ok := in.(*ssa.Store)
+				if !ok {
+					continue
+				}
+				ia, ok := s2.Addr.(*ssa.IndexAddr)
+				if !ok {
+					continue
+				}
+				sl, isSl := ia.X.Type().Underlying().(*types.Slice)
+				if !isSl {
+					continue
+				}
+				if bt, isB := sl.Elem().Underlying().(*types.Basic); !isB || bt.Kind() != types.Bool {
+					continue
+				}
+				if _, isMake := core.Unspill(ia.X).(*ssa.MakeSlice); !isMake {
+					continue
+				}
+				bySlice[core.Unspill(ia.X)] = append(bySlice[core.Unspill(ia.X)], st{s2, ia})
+			}
+		}
+		for _, stores := range bySlice {
+			// the outer loop: the range loop whose index is used by one of the stores
+			var own []st
+			var others []st
+			isRangeIndex := func(v ssa.Value) bool {
+				v = core.Unspill(v)
+				bo, ok := v.(*ssa.BinOp)
+				if !ok || bo.Op != token.ADD {
+					return false
+				}
+				ph, ok := bo.X.(*ssa.Phi)
+				if !ok {
+					return false
+				}
+				for _, e := range ph.Edges {
+					if k, isK := core.ConstInt(e); isK && k == -1 {
+						return true
+					}
+				}
+				return false
+			}
+			for _, x := range stores {
+				// the index of the OUTERMOST range loop that contains the store
+				if isRangeIndex(x.ia.Index) && loopDepthOf(x.store.Block()) == 1 {
+					own = append(own, x)
+				} else {
+					others = append(others, x)
+				}
+			}
+			if len(own) == 0 || len(others) == 0 {
+				continue
+			}
+			// the verdict K of the current candidate
+			var K ssa.Value
+			for _, o := range own {
+				if _, isC := o.store.Val.(*ssa.Const); !isC {
+					K = core.Unspill(o.store.Val)
+				} else {
+					for _, f := range core.FactsAt(o.store.Block()) {
+						if _, isPhi := f.Cond.(*ssa.Phi); isPhi && f.Truth {
+							K = f.Cond
+						}
+					}
+				}
+			}
+			if K == nil {
+				c.R.Info("R06.20", core.ShortFn(fn)+": the verdict of the current candidate", p.Pos(fn.Pos()), "not decided: the value stored for the current candidate could not be identified")
+				continue
+			}
+			bad := ""
+			for _, o := range others {
+				ok := false
+				for _, f := range core.FactsAt(o.store.Block()) {
+					if core.Unspill(f.Cond) == K && f.Truth {
+						ok = true
+					}
+				}
+				if !ok && bad == "" {
+					bad = p.Pos(o.store.Pos())
+				}
+			}
+			c.R.Check(bad == "", "R06.20", core.ShortFn(fn)+": a candidate changes the verdict on earlier candidates only if it is kept itself", p.Pos(fn.Pos()), fmt.Sprintf("%d stores into the retain flags of other candidates, each behind the current candidate's own verdict", len(others)),
+				"the retain flag of another candidate is written at "+bad+" before (or regardless of) the verdict on the current one: a candidate that is rejected still strikes out what it overlaps - an inserted notice vanishes although the match that is reported does not cover its line")
+		}
 	}
 }
